@@ -40,7 +40,7 @@ add("C13", "jaxpr2smt+pysym",
 
 add("C08", "jaxpr2smt",
     "bounded symbolic execution of the jaxpr of Graph.run from a state whose ring buffers are in invariant form with symbolic schedules (run masks, seqs, window seqs); z3 decides read == emitted(producer, seq) and invariant preservation; plus whole-rollout interpretation of concrete compiled instances (real get_buffer_sizes) with symbolic payloads; replay with identifiable payloads on the real rollout",
-    "Part 1: for every adequate schedule and every buffer content satisfying the ring invariant, every window entry handed to every executed step of one partition is the payload emitted at that entry's seq (default for negative seq) and the invariant is re-established (all three supergraph modes, paddings 0..2). Part 2: on an enumerated family of compiled instances sized by the real get_buffer_sizes the same holds for all payload values over the whole horizon.",
+    "Part 1: for every adequate schedule and every buffer content satisfying the ring invariant, every window entry handed to every executed step of one partition is the payload emitted at that entry's seq (default for negative seq) and the invariant is re-established (all three supergraph modes, paddings 0..2). Part 2: on an enumerated family of compiled instances sized by the real get_buffer_sizes the same holds for all payload values over the whole horizon. Instance family (part 2): two/three-node graphs, 5:60 rate ratio, heterogeneous multi-episode stacks, user buffer sizes/padding, fan-out producers with differently deep readers, seeded random topologies (4 quick / 47 thorough).",
     "schedule adequacy is an assumption of part 1 (it is what get_buffer_sizes must provide; part 2 checks it only on the enumerated instances); L in -1..40; floats as reals",
     "DESIGN.md §6 C08")
 
@@ -58,7 +58,7 @@ add("C18", "jaxpr2smt",
 
 add("C19", "jaxpr2smt",
     "bounded symbolic execution of the jaxprs of the live rex.rl wrapper step functions around an inner environment whose results are uninterpreted functions; z3 decides the one-step laws (incl. non-linear real arithmetic for pooled moments); counterexamples replayed on the real wrappers with the oracle returning the model's values",
-    "One-step laws for every input/history summary: Environment.step == graph.step with the supervisor output set from the action; AutoReset (stored and fresh init); LogWrapper accounting invariant; Squash/Clip action laws (within bounds, mutual inverses modulo listed tanh/atanh axioms); running observation/return normalisation == exact pooled mean/variance merge. Bounded: batch 2(3), obs dim 1(2).",
+    "One-step laws for every input/history summary: Environment.step == graph.step with the supervisor output set from the action; AutoReset (stored and fresh init); LogWrapper accounting invariant; Squash/Clip action laws (within bounds, mutual inverses modulo listed tanh/atanh axioms); running observation/return normalisation == exact pooled mean/variance merge. Bounded: batch 2(3), obs dim 1(2). Environment.step is checked with user pre/post-step hooks that write every node's state (incl. the supervisor's) and an output computed from the incoming state.",
     "floats as reals; tanh/atanh/sqrt uninterpreted with the axioms named in each obligation; 'statistics of everything seen' claimed as the merge law relative to the wrappers' 1e-4 pseudo-count prior; fresh-init auto-reset passes through modulo the advanced rng",
     "DESIGN.md §6 C19")
 
@@ -75,20 +75,20 @@ add("C17", "jaxpr2smt",
     "DESIGN.md §6 C17")
 
 add("C15", "jaxpr2smt",
-    "bounded symbolic execution of the jaxprs of StaticDist.sample/reset/quantile and TrainableDist.sample/mean/quantile over z3 terms with the wrapped distribution as an oracle and PRNG split as an uninterpreted function; z3 decides non-negativity, rng threading, replay and the Deterministic/Normal/Trainable quantile laws",
-    "RESTRICTED CLAIM: every StaticDist sample is >= 0 for arbitrary underlying samples, the returned distribution carries split(rng)[0] and samples depend on split(rng)[1] only, reset replays; TrainableDist sample=mean=quantile in [min,max]; Deterministic quantile = value; Normal quantile = loc+scale*ndtri(q), monotone given ndtri increasing. NOT claimed: mixture quantiles, agreement of quantiles with the CDF, the GMM delay estimator (not encodable).",
+    "bounded symbolic execution of the jaxprs of StaticDist.sample/reset/quantile and TrainableDist.sample/mean/quantile over z3 terms with the wrapped distribution as an oracle and PRNG split as an uninterpreted function; z3 decides non-negativity, rng threading, replay and the Deterministic/Normal/Trainable quantile laws PLUS (engine A, proxy execution): the real GMMEstimator._rescale/get_dist/normalize_weights on symbolic fitted parameters, data mean and data std with jax.numpy replaced by an object-array stand-in (exp/log uninterpreted, exp>0).",
+    "RESTRICTED CLAIM: every StaticDist sample is >= 0 for arbitrary underlying samples, the returned distribution carries split(rng)[0] and samples depend on split(rng)[1] only, reset replays; TrainableDist sample=mean=quantile in [min,max]; Deterministic quantile = value; Normal quantile = loc+scale*ndtri(q), monotone given ndtri increasing. NOT claimed: mixture quantiles, agreement of quantiles with the CDF, the GMM delay estimator (not encodable). ADDED: the estimator's export path: locations loc*std+mean, log-scales shifted by log(std) and positive, weights = renormalised weights of the heaviest components (positive, sum 1; a lightest prefix of weight < 1-percentile dropped), constant data -> Deterministic(mean); K<=2(3). The fitting loop itself stays outside.",
     "underlying distribution = arbitrary function of its seed; ndtri uninterpreted (strictly increasing axiom); sample shapes 1 and 3",
     "DESIGN.md §6 C15")
 
 add("C03", "pysym+jaxpr2smt",
     "bounded symbolic execution of the unmodified connection/node handlers of rex.asynchronous on z3-backed proxy numbers (1 us grid normal form, solver-checked branch feasibility, DFS over decision prefixes); per path the one-step inductive obligations are discharged by z3; InputState.push via the jaxpr interpreter; counterexamples replayed on the unpatched handlers with python floats",
-    "From every state satisfying the stated representation invariant (queue lengths <= 3(4), all blocking x skip x jitter policies, 6(12) rate pairs) each handler re-establishes the invariant and: receive times are FIFO and causal up to the 1 us rounding grid; messages are paired with their delays in order; non-blocking selection takes exactly the arrived prefix (LATEST/BUFFER, skip ties) and never before a strictly later arrival is known; blocking steps take adjacent disjoint runs of sender ticks; ts_max/selection pop exactly what was announced, seq_in = connection tick; ticks gap-free. Exact causality fails by <= 0.5 us: known finding K1.",
+    "From every state satisfying the stated representation invariant (queue lengths <= 3(4), all blocking x skip x jitter policies, 6(12) rate pairs) each handler re-establishes the invariant and: receive times are FIFO and causal up to the 1 us rounding grid; messages are paired with their delays in order; non-blocking selection takes exactly the arrived prefix (LATEST/BUFFER, skip ties) and never before a strictly later arrival is known; blocking steps take adjacent disjoint runs of sender ticks; ts_max/selection pop exactly what was announced, seq_in = connection tick; ticks gap-free. Exact causality fails by <= 0.5 us: known finding K1. Step clauses on the real tick chain: gap-free sequence numbers, start_k >= end_{k-1} under both scheduling modes incl. overruns, announced send time = end of the producing step.",
     "simulated clock only; INV as listed in the evidence; floats as reals with round-half-up on the 1 us grid; phases on the grid; composition of the one-step lemmas into whole-episode statements is an induction argument (DESIGN.md), not a solver result",
     "DESIGN.md §6 C03")
 
 add("C04", "pysym",
     "bounded symbolic execution of the unmodified push_scheduled_ts/push_phase_shift/push_step of _AsyncNodeWrapper over consecutive ticks on z3-backed proxies (symbolic phase, delays, blocking arrivals); the timing law is stated independently in max-form as z3 terms and proved equal on every feasible path; counterexamples replayed with python floats on the unpatched handlers",
-    "For ticks 0..2(3), rates {10,13}({3,10,13,50}), 0-2 blocking inputs, both scheduling modes and advance settings, for every phase, every computation delay (incl. overruns) and every blocking arrival time: scheduled time = k/rate+phase on the 1us grid; start_k = max(blocking arrivals, end of previous step[, scheduled_k + drift_k]); end_k = start_k + delay_k is what consumers are told; FREQUENCY drift accumulates overruns and keeps consecutive starts >= 1/rate - 1us apart; PHASE returns to the grid; never before the scheduled time unless advance with only blocking inputs; no overlap.",
+    "For ticks 0..2(3), rates {10,13}({3,10,13,50}), 0-2 blocking inputs, both scheduling modes and advance settings, for every phase, every computation delay (incl. overruns) and every blocking arrival time: scheduled time = k/rate+phase on the 1us grid; start_k = max(blocking arrivals, end of previous step[, scheduled_k + drift_k]); end_k = start_k + delay_k is what consumers are told; FREQUENCY drift accumulates overruns and keeps consecutive starts >= 1/rate - 1us apart; PHASE returns to the grid; never before the scheduled time unless advance with only blocking inputs; no overlap. The initial state (drift, 'end of previous step', queues, first task) is produced by the real _reset/_start.",
     "simulated clock; floats as reals; round-half-up on the 1us grid; phase on the grid; the delivery clause (recv = round6(max(end+d, prev))) is C03's",
     "DESIGN.md §6 C04")
 
@@ -118,13 +118,13 @@ add("C14", "pysym",
 
 add("C12", "jaxpr2smt",
     "bounded symbolic execution of the jaxpr of the real `episode` closure of rex.artificial._generate_graphs (captured at its jax.vmap call site) over z3 terms with all delay distributions as oracles (samples = uninterpreted functions of the PRNG key, real clip-at-zero kept); scans unrolled, while loop unrolled with an unwinding assertion; z3 decides the vertex/edge laws; counterexamples re-checked through the public generate_graphs",
-    "For 2 nodes with <= 5 vertices each, rate pairs (2,3),(3,2)((2,2),(4,3)), skip on/off and arbitrary computation/communication delays: vertices start at the phase, are spaced >= one period, last one sampled delay >= 0, never overlap, seq = -1 exactly beyond the horizon; messages are received one sampled delay >= 0 after the sender ended and (for in-order arrivals) consumed by the first receiver step starting at/after arrival (strictly after for skip), -1 beyond the horizon; augmentation returns existing vertices unchanged and adds exactly the missing keys. With reordered arrivals the literal first-eligible-step clause fails: known finding K4.",
+    "For 2 nodes with <= 5 vertices each, rate pairs (2,3),(3,2)((2,2),(4,3)), skip on/off and arbitrary computation/communication delays: vertices start at the phase, are spaced >= one period, last one sampled delay >= 0, never overlap, seq = -1 exactly beyond the horizon; messages are received one sampled delay >= 0 after the sender ended and (for in-order arrivals) consumed by the first receiver step starting at/after arrival (strictly after for skip), -1 beyond the horizon; augmentation returns existing vertices unchanged and adds exactly the missing keys. With reordered arrivals the literal first-eligible-step clause fails: known finding K4. Augmenting: the per-episode horizon is a solver variable (h = max ts_end <= the batch's longest), the pre-existing node is an arbitrary well-formed (padded) vertex set, as sender or as receiver of the generated node; existing vertices unchanged, exactly the missing node/connection added.",
     "floats as reals, +inf as 1e12; horizon concrete; acyclicity argued from forward-in-time edges (not encoded); mixture/trainable distributions enter only as 'some delay sample'",
     "DESIGN.md §6 C12")
 
 add("C11", "jaxpr2smt",
     "bounded symbolic execution of the jaxpr of TrainableDist.apply_delay (linear / linear_real_only, jnp.interp inlined) and of jax.grad through it over z3 reals; the piecewise-linear interpolant is stated independently as an If-chain; z3 (non-linear real arithmetic) decides equality, bracketing, zero-order-hold coincidence and the gradient law; counterexamples re-checked numerically on the real function",
-    "For windows 1-2 with extension 2(3), scalar payloads, every alpha in [0,1], step time and message timing satisfying the extended-window invariant: each entry equals the piecewise-linear signal through (arrival, value) at the shifted query time, the newest entry equals the sender's signal at ts_start - delay and lies between its neighbouring messages, coincides with the zero-order-hold result at breakpoints, and its derivative w.r.t. alpha is -(max-min) times the segment slope strictly inside a segment; dtypes/shape preserved.",
+    "For windows 1-2 with extension 2(3), scalar payloads, every alpha in [0,1], step time and message timing satisfying the extended-window invariant: each entry equals the piecewise-linear signal through (arrival, value) at the shifted query time, the newest entry equals the sender's signal at ts_start - delay and lies between its neighbouring messages, coincides with the zero-order-hold result at breakpoints, and its derivative w.r.t. alpha is -(max-min) times the segment slope strictly inside a segment; dtypes/shape preserved. ADDED: payload shapes (vectors/matrices up to 2x2, windows 1-3(4)) are reduced to the scalar case by a differential obligation on the real function (whole-window result == per-component results; this exposed defect F3, repaired); irregular senders (more than ext entries unarrived): the newest entry is still the signal at ts_start - delay.",
     "floats as reals; send times >= 1us apart; sender regularity (<= ext unarrived entries); linear: at most one default entry; linear_real_only: no default entries (its -1e9 sentinel relies on float absorption); Lipschitz continuity not attempted",
     "DESIGN.md §6 C11")
 
